@@ -1,6 +1,6 @@
 """C06 — semaphore: the longest-waiting acquirer is never stranded (necessary wake-up rules)."""
 from rl import (method_role, entry_methods, loc_endswith, path_cond, trace_summary, where, const_of, fmt_val, fmt_loc, fields_of)
-from common import (w4_pending_stores_waker, w4_helper, own_node_roots, poll_variant, fifo_ends, contains, cmp_fact)
+from common import (effective, w4_pending_stores_waker, w4_helper, own_node_roots, poll_variant, fifo_ends, contains, cmp_fact)
 from lib import CheckerError
 
 STATE = 'sync::semaphore::SemaphoreState'
@@ -208,8 +208,8 @@ def run(C, R):
                        'the fair wake-up walk examines more than the oldest waiter', where(F, toks[1]))
             for e in path.events:
                 if not (e['k'] == 'write' and e['loc'][0][0] == 'tok' and loc_endswith(e['loc'], 'state')
-                        and e['val'][0] == 'agg' and e['val'][2] == 'Notified'):
-                    continue
+                        and e['val'][0] == 'agg' and e['val'][2] == 'Notified' and effective(E, path, e)):
+                    continue     # (Notified stored over Notified notifies nobody anew)
                 nnot += 1
                 tok = e['loc'][:1]
                 req = ('init', tok + ('data', 'required_permits'))
